@@ -246,6 +246,36 @@ pub fn sig_fact(v: u64, h: u64) -> u64 {
     }
 }
 
+/// the RAW per-signature facts of signature variant `v` on a content with `h` HTLCs: does the commitment signature
+/// verify, and for each SUPPLIED HTLC signature whether it verifies against the HTLC at its position.  What the
+/// signer's loop makes of them (accept / refuse / index panic, surplus ignored) is decided by the Lean model
+/// (`Enforcement.sigFactOf`), not here.
+pub fn sig_raw(v: u64, h: u64) -> (bool, Vec<bool>) {
+    let h = h as usize;
+    let mut bits = vec![true; h];
+    let mut commit = true;
+    match v {
+        0 => commit = false,
+        2 if h >= 1 => bits[0] = false,
+        3 if h >= 1 => bits[h / 2] = false,
+        4 if h >= 1 => bits[h - 1] = false,
+        5 => bits.clear(),
+        6 if h >= 1 => bits.truncate(h - 1),
+        7 => bits.push(false), // the surplus one is the commitment signature: verifies against nothing here
+        8 if h >= 2 => {
+            bits[0] = false;
+            bits[h - 1] = false;
+        }
+        _ => {}
+    }
+    (commit, bits)
+}
+/// request token `r<commitOk>:<nHtlc>:<bits>:<payOk>`
+pub fn sig_token(v: u64, h: u64, pay_ok: bool) -> String {
+    let (c, bits) = sig_raw(v, h);
+    format!("r{}:{}:{}:{}", c as u8, h, bits.iter().map(|b| if *b { '1' } else { '0' }).collect::<String>(), pay_ok as u8)
+}
+
 #[derive(Default)]
 pub struct Monitors {
     // C01
@@ -851,6 +881,13 @@ impl World {
     /// transaction a signature at its position that verifies against the HTLC transaction built here.
     /// Returns (fully_verifies, fact) with fact as in `sig_fact` (what the signer's loop should meet).
     fn verify_sigs(&self, ctx: &TestCommitmentTxContext, csig: &Signature, hsigs: &[Signature]) -> (bool, u64) {
+        let (full, fact, _, _) = self.verify_sigs_raw(ctx, csig, hsigs);
+        (full, fact)
+    }
+
+    /// the harness' own ECDSA verification, per signature: (fully_verifies, digest as in `sig_fact`, commitment
+    /// signature verifies, for HTLC i < min(#HTLCs, #signatures): signature i verifies against HTLC i)
+    fn verify_sigs_raw(&self, ctx: &TestCommitmentTxContext, csig: &Signature, hsigs: &[Signature]) -> (bool, u64, bool, Vec<bool>) {
         use lightning_signer::bitcoin::sighash::{EcdsaSighashType, SighashCache};
         use lightning_signer::bitcoin::Amount;
         use lightning_signer::lightning::ln::chan_utils::{build_htlc_transaction, derive_private_key, get_htlc_redeemscript, make_funding_redeemscript};
@@ -866,8 +903,9 @@ impl World {
                 let sighash = built.get_sighash_all(&redeem, cc.setup.channel_value_sat);
                 let cp_funding = PublicKey::from_secret_key(secp, &cc.counterparty_keys.funding_key);
                 if secp.verify_ecdsa(&sighash, csig, &cp_funding).is_err() {
-                    return Ok((false, 0));
+                    return Ok((false, 0, false, vec![]));
                 }
+                let mut bits: Vec<bool> = vec![];
                 let point = chan.get_per_commitment_point(ctx.commit_num)?;
                 let cp_htlc_key = derive_private_key(secp, &point, &cc.counterparty_keys.htlc_base_key);
                 let cp_htlc_pub = PublicKey::from_secret_key(secp, &cp_htlc_key);
@@ -900,33 +938,58 @@ impl World {
                                 fact = 2; // the signer's index loop runs past the end here
                             }
                         }
-                        Some(sg) =>
-                            if secp.verify_ecdsa(&sh, sg, &cp_htlc_pub).is_err() {
+                        Some(sg) => {
+                            let ok = secp.verify_ecdsa(&sh, sg, &cp_htlc_pub).is_ok();
+                            bits.push(ok);
+                            if !ok {
                                 all = false;
                                 if fact == 1 {
                                     fact = 0;
                                 }
-                            },
+                            }
+                        }
                     }
                 }
-                Ok((all, fact))
+                Ok((all, fact, true, bits))
             })
-            .unwrap_or((false, 0))
+            .unwrap_or((false, 0, false, vec![]))
+    }
+
+    /// cross-check of the signature facts stated in a request line against the harness' own verification of the
+    /// signatures it is about to send: a digest `0|1|2|3` (corpus, old replays) or the raw token of `sig_token`
+    fn check_sig_token(&mut self, tok: &str, ctx: &TestCommitmentTxContext, csig: &Signature, hsigs: &[Signature]) -> bool {
+        let (full, fact, commit_ok, bits) = self.verify_sigs_raw(ctx, csig, hsigs);
+        if let Some(raw) = tok.strip_prefix('r') {
+            let f: Vec<&str> = raw.split(':').collect();
+            let mut ok = f.len() == 4;
+            if ok {
+                let n_htlc = ctx.tx.as_ref().map(|t| t.htlcs().len()).unwrap_or(0);
+                let stated: Vec<bool> = f[2].chars().map(|c| c == '1').collect();
+                ok = (f[0] == "1") == commit_ok && f[1].parse::<usize>().ok() == Some(n_htlc) && stated.len() == hsigs.len();
+                if ok && commit_ok {
+                    // the verification above looked at the signatures up to the number of HTLCs
+                    ok = bits.len() == n_htlc.min(hsigs.len()) && bits.iter().zip(stated.iter()).all(|(a, b)| a == b);
+                }
+            }
+            if !ok {
+                self.tags.insert(format!("HARNESS-sigfact-mismatch:raw:{}", tok));
+            }
+        } else {
+            let expect: u64 = tok.parse().unwrap_or(0);
+            if fact != (if expect == 3 { 1 } else { expect }) {
+                self.tags.insert(format!("HARNESS-sigfact-mismatch:{}vs{}", fact, expect));
+            }
+        }
+        full
     }
 
     /// returns (result, fully_verifies)
-    fn do_validate(&mut self, n: u64, c: u64, v: u64, phase: u64, expect_fact: u64) -> (Result<(), Status>, bool) {
+    fn do_validate(&mut self, n: u64, c: u64, v: u64, phase: u64, sig_tok: &str) -> (Result<(), Status>, bool) {
         let (ctx, sig, hsigs) = self.validate_inputs(n, c, v);
         let (th, tc) = content(c);
         let received = htlcs_of(c);
         let full = match &ctx {
-            Some(ctx) => {
-                let (full, fact) = self.verify_sigs(ctx, &sig, &hsigs);
-                if fact != (if expect_fact == 3 { 1 } else { expect_fact }) {
-                    self.tags.insert(format!("HARNESS-sigfact-mismatch:{}vs{}", fact, expect_fact));
-                }
-                full
-            }
+            Some(ctx) => self.check_sig_token(sig_tok, ctx, &sig, &hsigs),
             None => false,
         };
         if phase == 1 {
@@ -1117,8 +1180,9 @@ impl World {
                         return self.node.with_channel(&self.channel_id, |_| Ok(())).map(|_| "ok".to_string()).map_err(|e| class_of(&e));
                     }
                     // validate n c fact p phase variant
-                    let (n, c, fact, ph, v) = (num(1), num(2), num(3), num(5), if t.len() > 6 { num(6) } else { num(3) });
-                    let (r, full) = self.do_validate(n, c, v, ph, fact);
+                    let (n, c, ph, v) = (num(1), num(2), num(5), if t.len() > 6 { num(6) } else { num(3) });
+                    let sig_tok = t.get(3).copied().unwrap_or("0").to_string();
+                    let (r, full) = self.do_validate(n, c, v, ph, &sig_tok);
                     match r {
                         Ok(()) => {
                             if full {
@@ -1314,17 +1378,12 @@ impl World {
                 }
                 "hvalidate" => {
                     // hvalidate ver n c fact p variant
-                    let (ver, n, c, fact, v) = (num(1) as u32, num(2), num(3), num(4), if t.len() > 6 { num(6) } else { num(4) });
+                    let (ver, n, c, v) = (num(1) as u32, num(2), num(3), if t.len() > 6 { num(6) } else { num(4) });
+                    let sig_tok = t.get(4).copied().unwrap_or("0").to_string();
                     let (th, tc) = content(c);
                     let (ctx, sig, hsigs) = if ready { self.validate_inputs(n, c, v) } else { (None, self.dummy_sig(), vec![]) };
                     let s = match &ctx {
-                        Some(ctx) => {
-                            let (full, f) = self.verify_sigs(ctx, &sig, &hsigs);
-                            if f != (if fact == 3 { 1 } else { fact }) {
-                                self.tags.insert(format!("HARNESS-sigfact-mismatch:{}vs{}", f, fact));
-                            }
-                            full
-                        }
+                        Some(ctx) => self.check_sig_token(&sig_tok, ctx, &sig, &hsigs),
                         None => false,
                     };
                     let h = self.handler(ver);
@@ -1557,18 +1616,13 @@ impl World {
                 "hvalidate1" => {
                     // ValidateCommitmentTx (phase 1 through the handler: transaction + PSBT with witness scripts)
                     use lightning_signer::bitcoin::{absolute::LockTime, transaction::Version, Amount, ScriptBuf, Transaction, TxIn, TxOut};
-                    let (ver, n, c, fact, v) = (num(1) as u32, num(2), num(3), num(4), if t.len() > 6 { num(6) } else { num(4) });
+                    let (ver, n, c, v) = (num(1) as u32, num(2), num(3), if t.len() > 6 { num(6) } else { num(4) });
+                    let sig_tok = t.get(4).copied().unwrap_or("0").to_string();
                     let (th, tc) = content(c);
                     let received = htlcs_of(c);
                     let (ctx, sig, hsigs) = if ready { self.validate_inputs(n, c, v) } else { (None, self.dummy_sig(), vec![]) };
                     let full = match &ctx {
-                        Some(ctx) => {
-                            let (full, f) = self.verify_sigs(ctx, &sig, &hsigs);
-                            if f != (if fact == 3 { 1 } else { fact }) {
-                                self.tags.insert(format!("HARNESS-sigfact-mismatch:{}vs{}", f, fact));
-                            }
-                            full
-                        }
+                        Some(ctx) => self.check_sig_token(&sig_tok, ctx, &sig, &hsigs),
                         None => false,
                     };
                     let (tx, wit): (Transaction, Vec<Vec<u8>>) = match &ctx {
